@@ -102,6 +102,55 @@ pub fn case_of_judged(c: &JCase, extra_direct: Vec<String>, extra_dist: Vec<(Str
   }
 }
 
+/// Registries whose package files are ALSO imported as assets (text / bytes imports, by relative path, by
+/// jsr: specifier or by https URL into the registry): outside the registry model, so the model is not run;
+/// the REAL loader-call log is judged by the decision procedure of C05_registry_presents_manifest_checksum
+/// (every call for a file of a registry package presents the checksum its version manifest gives).
+pub fn gen_case_asset_calls(seed: u64, k: u64) -> Case {
+  let mut rng = Rng::for_case(seed ^ 0x4a53_5277, k);
+  let cfg = JGenCfg { faults: 4, locker: 60, https_imports: 45, asset_imports: 45, asset_abs: 50, manifest_faults: 0, dirty_cache: rng.chance(50), ..Default::default() };
+  let mut c = gen_jcase(&mut rng, &cfg);
+  c.unstable_text = true;
+  c.unstable_bytes = true;
+  let mut built = real_jbuild(&c);
+  let mut direct = vec![];
+  for p in pending_specs(&built.graph) {
+    direct.push(format!("entry {} is still pending after the build", p));
+  }
+  let mut specs = BTreeSet::new();
+  graph_spec_strings(&built.graph, &built.log, &mut specs);
+  for (s, _) in &built.remote_sets {
+    specs.insert(s.clone());
+  }
+  let mut a = abs_jworld(&c, &specs);
+  let calls: Vec<Sx> = built
+    .log
+    .iter()
+    .map(|l| {
+      let setting = match l.cache_setting { "use" => 0, "reload" => 1, _ => 2 };
+      let ck = l.checksum.as_ref().map(|h| Sx::A(a.chk(h)));
+      Sx::L(vec![Sx::A(a.it.spec(&l.specifier)), Sx::A(setting), Sx::opt(ck)])
+    })
+    .collect();
+  let n_asset_calls = built.log.iter().filter(|l| l.asset).count();
+  let n_asset_pkg_calls = built.log.iter().filter(|l| l.asset && l.specifier.starts_with(REGISTRY)).count();
+  let _ = &mut built;
+  let dist = vec![
+    (format!("asset_calls_{}", n_asset_calls.min(4)), 1),
+    (format!("asset_calls_on_package_files_{}", n_asset_pkg_calls.min(4)), 1),
+    (format!("asset_world_locker_{}", c.lock_pkg.is_some()), 1),
+  ];
+  Case {
+    input: Sx::L(vec![Sx::A(31339), a.world_sx.clone(), Sx::L(calls)]),
+    obs: Sx::L(vec![Sx::judge(true)]),
+    meta: serde_json::json!({"stream": "registry with asset imports of package files: real loader calls judged", "world": describe(&c),
+      "loader_calls": built.log.iter().map(|l| format!("{}{} {} {:?}", if l.asset { "asset " } else { "" }, l.cache_setting, l.specifier, l.checksum)).collect::<Vec<_>>()}),
+    nontrivial: n_asset_pkg_calls >= 1,
+    dist,
+    direct_violations: direct,
+  }
+}
+
 pub fn gen_case(seed: u64, k: u64, f: Flavour) -> Case {
   let mut rng = Rng::for_case(seed ^ 0x4a53_5200, k);
   let c = gen_jcase(&mut rng, &cfg_for(f));
